@@ -1,25 +1,31 @@
 """C10 -- archive members come out as themselves: right bytes, name, order.
 
-Specification sources (never the code): the 7z format description (7zFormat.txt of
-the 7-Zip SDK) for NUMBER, bit vectors, PackInfo / UnpackInfo / SubStreamsInfo /
-FilesInfo and the folder / sub-stream layout (DESIGN Appendix B "7z layout"); the
-property statement for the member loops (archive order, `archive!/member` path,
-extractor chosen by the member's base name, a failing member affects only itself);
-the published magic numbers of ZIP / 7z / gzip / bzip2 / xz / ustar.
+Specification sources (never the code): the 7z format description (7zFormat.txt of the 7-Zip SDK) for NUMBER, bit
+vectors, PackInfo / UnpackInfo / Folder / SubStreamsInfo / FilesInfo and the folder / sub-stream layout (DESIGN
+Appendix B "7z layout"); the property statement for the member loops (archive order, `archive!/member` path, extractor
+chosen by the member's base name, a failing member affects only itself); the published magic numbers of ZIP / 7z /
+gzip / bzip2 / xz / ustar and the documented tarfile modes.
 
-Layers (each is a set of obligations generated from the real source):
- (a) byte-level readers of sevenzip.py over an abstract byte stream with a ghost
-     position: _read_bytes/_read_uint8/32/64, _read_number (= 7z NUMBER, bit-vectors),
-     _read_boolean_vector (BOUNDED counts);
- (b) _build_file_list: file -> (folder, sub-stream) map equals the spec;
- (c) extractall/_decompress_folder: the bytes handed to the decoder chain of folder k
-     are archive[in_off(k) : in_off(k)+in_len(k)];
- (d) _extract_files_from_folder: member j of a folder is out(k)[off_j : off_j+size_j];
- (e) member loops of archive_extractor.py: selection in container order, one dispatch
-     per selected member with the member's own bytes, name and `archive!/member` path;
- (f) magic-byte table -> archive type -> tar mode.
-The end-to-end statement is the composition of these layers; `decode` (lzma), zipfile
-and tarfile member reads and the member extractors are uninterpreted (Trust).
+Layers (each is a set of obligations generated from the real source on every run):
+ (a) byte-level readers of sevenzip.py over an abstract byte stream with a ghost position: _read_bytes,
+     _read_uint8/32/64, _read_number (= 7z NUMBER, bit-vectors, all byte streams); BOUNDED: _read_boolean_vector,
+     _parse_pack_info, _parse_folder, _parse_unpack_info, _parse_substreams_info against the format grammar
+     (small shapes, every stream byte symbolic);
+ (b) _build_file_list (any number of files / folders): file i gets its name, attributes and the size of its
+     sub-stream; the r-th stream-bearing file goes to the folder k with cum(k) <= r < cum(k) + num_streams(k);
+ (c) extractall / _decompress_folder: the bytes handed to the decoder chain of folder k are
+     archive[pack_pos + sum(pack_sizes[:k]) : + pack_sizes[k]], coders applied last-first  (F10 fails here);
+ (d) _extract_files_from_folder: member j of a folder is out(k)[off_j : off_j + size_j], off_j = sum of earlier sizes;
+ (e) member loops of archive_extractor.py: ZIP / TAR / 7z selection in container order, one dispatch per selected
+     member with the member's own bytes, name, base name and `archive!/member` path; _process_archive_entry calls
+     get_extractor(basename)(BytesIO(bytes), path=...) once, yields all its results in order, raises nothing;
+ (f) magic-byte table -> archive type -> member loop / tar mode.
+Loops over symbolic sequences carry *per-iteration ghost-event invariants*: the invariant-preservation VC of
+iteration i states exactly which events (append / write / yield / map) the iteration produced and with which values;
+`member-loops-run-to-completion` rules out early exits.  The end-to-end statement is the composition of these layers
+(PY-LIST-ORDER for lists built by append); `decode` (lzma), zipfile / tarfile member reads, the file system and the
+member extractors are uninterpreted (Trust).  Recorded known findings: F25, F26, F27 (known_findings.json); F10 has a
+proposed fix (proposed_fixes/C10.diff) and fails on the unfixed tree with a natively replayed witness.
 """
 import ast
 
@@ -32,7 +38,7 @@ from pyvc.state import HeapObj
 from pyvc.symex import Executor
 from pyvc.values import (NONE, VBool, VBytes, VExc, VExt, VFunc, VInt, VRef, VSeq, VStr, VTuple, VUnk,
                          ext_sort, fresh_name)
-from pyvc.verify import Maker, p_bool, p_bv, p_const, p_ext, p_int, p_obj, p_opt, p_str, p_unk
+from pyvc.verify import Maker, p_const, p_ext, p_int, p_obj, p_opt, p_str, p_unk
 from contracts import common
 
 SEVEN = "sharepoint2text/parsing/extractors/util/sevenzip.py"
@@ -830,17 +836,6 @@ def layout_contracts():
     return out
 
 
-def ps_nonneg(upto):
-    """prefix sums of non-negative sizes are non-negative (proved by induction in lemmas())."""
-    a = z3.Int("a!psn")
-    return z3.ForAll([a], z3.Implies(z3.And(0 <= a, a <= upto), PS(a) >= 0), patterns=[PS(a)])
-
-
-def sizes_pos(upto):
-    t = z3.Int("t!sp")
-    return z3.ForAll([t], z3.Implies(z3.And(t >= 0, t < upto), PSZ(t) > 0), patterns=[PSZ(t)])
-
-
 # ======================================================= member loops (e), (f) ==
 ZipFileS, ZipInfoS = ext_sort("ZipFile"), ext_sort("ZipInfo")
 TarFileS, TarInfoS = ext_sort("TarFile"), ext_sort("TarInfo")
@@ -1207,8 +1202,6 @@ def member_contracts():
         note="a member failure is swallowed here (affects only itself); results = extractor(BytesIO(bytes), path='archive!/member')"))
 
     # ---- ZIP
-    zf_of = {}
-
     def zip_zf(lc):
         vals = [v for v in lc.st.frame.env.values() if isinstance(v, VExt) and v.sort == "ZipFile"]
         if len(vals) != 1:
